@@ -38,7 +38,7 @@ func vpCountLines(text, key string) int {
 
 //vp:property C19
 //vp:set s 2 3
-//vp:set budget 120 900
+//vp:set budget 400 1200
 //vp:bounds a builder with built-in defaults in which eight settings are set arbitrarily: two booleans with default true/false (compression, allow font smoothing), three integers (authentication level: default 3 and gateway usage method: default 0, each from {0,1,3}; gateway credentials source from {0,5}), user name of 0..s printable ASCII bytes without blanks, full address and access token empty or a fixed value containing ':'
 //vp:assume a setting that is absent from a file is read back as its built-in default (that is how NewBuilderFromFile starts: defaults first, then the file); fatih/structs is modelled from the static types (tags, kinds, values); mapstructure metadata is empty
 //vp:reach built
